@@ -79,3 +79,46 @@ package slog
 //@   auto
 //@   at call (*PrintCtx).pcAppendStringKey assert [C05.field-key] callee.s == s && same(callee.str, name)
 //@   at call (*PrintCtx).pcAppendQuotedStringValue assert [C05.field-value] callee.s == s && same(callee.str, value)
+
+// ---- C06: colours switched on are switched off again. ghost.ioColor tracks the record buffer only: the
+// string-building helpers (wrapColorAndBg ...) switch on and reset inside the string they return.
+
+//@ func (colorizeToolS).echoColor
+//@   props C02 C06
+//@   auto
+//@   posteffect ghost.ioColor = ite(clr != clrNone && typeis(out, *PrintCtx), 1, ghost.ioColor)
+
+//@ func (colorizeToolS).echoBgColor
+//@   props C02 C06
+//@   auto
+//@   posteffect ghost.ioColor = ite(clr != clrNone && typeis(out, *PrintCtx), 1, ghost.ioColor)
+
+//@ func (colorizeToolS).echoColorAndBg
+//@   props C02 C06
+//@   auto
+//@   posteffect ghost.ioColor = ite((clr != clrNone || bg != clrNone) && typeis(out, *PrintCtx), 1, ghost.ioColor)
+
+// the reset sequence is ESC [ 0 m
+//@ func (colorizeToolS).echoResetColor
+//@   props C02 C06
+//@   auto
+//@   posteffect ghost.ioColor = ite(typeis(out, *PrintCtx), 0, ghost.ioColor)
+//@   at call (io.Writer).Write assert [C06.reset-seq] len(callee.p) == 4 && callee.p[0] == 27 && callee.p[1] == 91 && callee.p[2] == 48 && callee.p[3] == 109
+
+//@ func (*Entry).printTimestamp
+//@   props C02 C06
+//@   auto
+//@   nokeeps ghost.ioColor
+
+// the caller is the last thing on the first line: it leaves no colour on
+//@ func (*Entry).printPC
+//@   props C02 C06
+//@   auto
+//@   nokeeps ghost.ioColor
+//@   ensures [C06.caller-reset] pc.noColor || ghost.ioColor == 0
+
+//@ func (*PrintCtx).appendError
+//@   props C02 C06
+//@   auto
+//@   nokeeps ghost.ioColor
+//@   ensures [C06.error-reset] s.noColor || ghost.ioColor == 0 || ghost.ioColor == old(ghost.ioColor)
